@@ -1,0 +1,128 @@
+//go:build verif
+
+package jsonapi
+
+import "time"
+
+// Contracts and lemma harnesses for filters (C10). Checked by /verif/govc.
+
+// Comparison semantics, transcribed from the property: = and != are
+// complementary equality tests, <, <=, >, >= follow the natural total order of
+// the kind, an unknown operator allows nothing.
+//@ spec opsemOrd(op string, lt bool, eq bool) = (op == "=" && eq) || (op == "!=" && !eq) || (op == "<" && lt) || (op == "<=" && (lt || eq)) || (op == ">" && !lt && !eq) || (op == ">=" && !lt)
+//@ spec opsemEq(op string, eq bool) = (op == "=" && eq) || (op == "!=" && !eq)
+
+//@ func checkStr
+//@ props C10
+//@ flag pure
+//@ ensures sem: result == opsemOrd(op, rval < cval, rval == cval)
+
+//@ func checkInt
+//@ props C10
+//@ flag pure
+//@ ensures sem: result == opsemOrd(op, rval < cval, rval == cval)
+
+//@ func checkUint
+//@ props C10
+//@ flag pure
+//@ ensures sem: result == opsemOrd(op, rval < cval, rval == cval)
+
+//@ func checkBool
+//@ props C10
+//@ flag pure
+//@ ensures sem: result == opsemEq(op, rval == cval)
+
+//@ func checkTime
+//@ props C10
+//@ flag pure
+//@ ensures sem: result == opsemOrd(op, inst(rval) < inst(cval), inst(rval) == inst(cval))
+
+//@ lemma lemma_C10_int_trichotomy
+//@ props C10
+func lemma_C10_int_trichotomy(a, b int64) bool {
+	lt, eq, gt := checkInt("<", a, b), checkInt("=", a, b), checkInt(">", a, b)
+	return (lt && !eq && !gt) || (!lt && eq && !gt) || (!lt && !eq && gt)
+}
+
+//@ lemma lemma_C10_uint_trichotomy
+//@ props C10
+func lemma_C10_uint_trichotomy(a, b uint64) bool {
+	lt, eq, gt := checkUint("<", a, b), checkUint("=", a, b), checkUint(">", a, b)
+	return (lt && !eq && !gt) || (!lt && eq && !gt) || (!lt && !eq && gt)
+}
+
+//@ lemma lemma_C10_str_trichotomy
+//@ props C10
+func lemma_C10_str_trichotomy(a, b string) bool {
+	lt, eq, gt := checkStr("<", a, b), checkStr("=", a, b), checkStr(">", a, b)
+	return (lt && !eq && !gt) || (!lt && eq && !gt) || (!lt && !eq && gt)
+}
+
+//@ lemma lemma_C10_time_trichotomy
+//@ props C10
+func lemma_C10_time_trichotomy(a, b time.Time) bool {
+	lt, eq, gt := checkTime("<", a, b), checkTime("=", a, b), checkTime(">", a, b)
+	return (lt && !eq && !gt) || (!lt && eq && !gt) || (!lt && !eq && gt)
+}
+
+//@ lemma lemma_C10_complement
+//@ props C10
+func lemma_C10_complement(a, b int64, s, t string, x, y bool, u, v uint64) bool {
+	return checkInt("=", a, b) != checkInt("!=", a, b) &&
+		checkStr("=", s, t) != checkStr("!=", s, t) &&
+		checkBool("=", x, y) != checkBool("!=", x, y) &&
+		checkUint("=", u, v) != checkUint("!=", u, v)
+}
+
+//@ lemma lemma_C10_le_is_lt_or_eq
+//@ props C10
+func lemma_C10_le_is_lt_or_eq(a, b int64, s, t string, u, v uint64) bool {
+	return checkInt("<=", a, b) == (checkInt("<", a, b) || checkInt("=", a, b)) &&
+		checkInt(">=", a, b) == (checkInt(">", a, b) || checkInt("=", a, b)) &&
+		checkStr("<=", s, t) == (checkStr("<", s, t) || checkStr("=", s, t)) &&
+		checkStr(">=", s, t) == (checkStr(">", s, t) || checkStr("=", s, t)) &&
+		checkUint("<=", u, v) == (checkUint("<", u, v) || checkUint("=", u, v)) &&
+		checkUint(">=", u, v) == (checkUint(">", u, v) || checkUint("=", u, v))
+}
+
+//@ lemma lemma_C10_unknown_operator
+//@ props C10
+//@ requires op != "=" && op != "!=" && op != "<" && op != "<=" && op != ">" && op != ">="
+func lemma_C10_unknown_operator(op string, a, b int64, s, t string, x, y bool, u, v uint64, p, q time.Time) bool {
+	return !checkInt(op, a, b) && !checkStr(op, s, t) && !checkBool(op, x, y) && !checkUint(op, u, v) && !checkTime(op, p, q)
+}
+
+//@ lemma lemma_C10_bool_never_ordered
+//@ props C10
+//@ requires op == "<" || op == "<=" || op == ">" || op == ">="
+func lemma_C10_bool_never_ordered(op string, x, y bool) bool {
+	return !checkBool(op, x, y)
+}
+
+// ---- membership ----
+
+//@ spec inSlice(id string, ids []string) = exists i int :: 0 <= i && i < len(ids) && ids[i] == id
+
+//@ func checkIn
+//@ props C10
+//@ ensures sem: result == inSlice(id, ids)
+//@ loop 0 invariant none-so-far: forall k int :: 0 <= k && k <= $idx ==> ids[k] != id
+
+// ---- byte strings ----
+
+//@ spec bytesEq(a []byte, b []byte) = len(a) == len(b) && (forall i int :: 0 <= i && i < len(a) ==> a[i] == b[i])
+//@ spec bytesLt(a []byte, b []byte) = exists k int :: 0 <= k && k <= len(a) && k <= len(b) && (forall j int :: 0 <= j && j < k ==> a[j] == b[j]) && ((k == len(a) && k < len(b)) || (k < len(a) && k < len(b) && a[k] < b[k]))
+
+//@ func checkBytes
+//@ props C10
+//@ ensures eq: op == "=" ==> result == bytesEq(rval, cval)
+//@ ensures ne: op == "!=" ==> result == !bytesEq(rval, cval)
+//@ ensures lt: op == "<" ==> result == bytesLt(rval, cval)
+//@ ensures le: op == "<=" ==> result == (bytesLt(rval, cval) || bytesEq(rval, cval))
+//@ ensures gt: op == ">" ==> result == bytesLt(cval, rval)
+//@ ensures ge: op == ">=" ==> result == (bytesLt(cval, rval) || bytesEq(rval, cval))
+//@ ensures unknown: op != "=" && op != "!=" && op != "<" && op != "<=" && op != ">" && op != ">=" ==> !result
+//@ loop 0 invariant i-range: 0 <= i
+//@ loop 0 invariant prefix: forall j int :: 0 <= j && j < i ==> rval[j] == cval[j]
+//@ loop 1 invariant i-range: 0 <= i#1
+//@ loop 1 invariant prefix: forall j int :: 0 <= j && j < i#1 ==> rval[j] == cval[j]
